@@ -97,6 +97,7 @@ func genScriptCase(r *Rng, feat map[string]int) scriptCase {
 	g.noWith = r.Bool() || opts.KeepNames // (inside with, only names that do not pin a nested symbol are referenced: recorded findings)
 	g.noFnInBlock = !g.noWith             // a sloppy block function referenced inside with: recorded finding (residue of 6412f3d)
 	g.evalSibs = r.Chance(30)
+	g.annexSibs = r.Chance(30)
 	sc.src, sc.top = g.script(r.Range(3, 7))
 	sc.opts = opts
 	sc.optDesc = strings.Join(desc, " ")
